@@ -139,7 +139,7 @@ LitVal(k, v) == CASE k = "Null" -> NULL
                   [] k = "Integer" -> IV(v)
                   [] k = "Float" -> DecimalOf(StrCps(v))
                   [] k = "String" -> SV(v)
-                  [] k = "Boolean" -> BV(v = "true")
+                  [] k = "Boolean" -> BV(LowerSeq(StrCps(v)) = StrCps("true"))
                   \* temporal literals: the value is computed from the literal's text (module Temporal)
                   [] k = "DateTime" -> TmDateTimeOf(StrCps(v))
                   [] k = "Date" -> TmDateOf(StrCps(v))
